@@ -51,6 +51,9 @@ var (
 	}, []string{"success"})
 )
 
+// selfMonitorJobName is the name of the job injected when ShardMonitorEnable is set
+const selfMonitorJobName = "prometheus_shards"
+
 const (
 	paramJobName = "_jobName"
 	paramHash    = "_hash"
@@ -157,6 +160,15 @@ func (i *Injector) injectSelfMonitor(cfg *config.Config) {
 		return
 	}
 
+	// a job of that name in the user's configuration wins: two jobs of one name make the
+	// whole file invalid for prometheus
+	for _, job := range cfg.ScrapeConfigs {
+		if job.JobName == selfMonitorJobName {
+			i.log.Warnf("job %s exists, self monitor job is not injected", selfMonitorJobName)
+			return
+		}
+	}
+
 	u, _ := url.Parse(i.option.PrometheusURL)
 	podName := os.Getenv("POD_NAME")
 	ss := strings.Split(podName, "-")
@@ -166,7 +178,7 @@ func (i *Injector) injectSelfMonitor(cfg *config.Config) {
 	}
 
 	cfg.ScrapeConfigs = append(cfg.ScrapeConfigs, &config.ScrapeConfig{
-		JobName: "prometheus_shards",
+		JobName: selfMonitorJobName,
 		ServiceDiscoveryConfigs: []discovery.Config{
 			discovery.StaticConfig([]*targetgroup.Group{
 				{
